@@ -80,6 +80,7 @@ type RunResult struct {
 	Modules   []string
 	Trusted   []string
 	Axioms    []string
+	Inputs    []string // preconditions of exported methods: input assumptions granted by the property's quantifier text
 }
 
 func kindOf(name string) string {
@@ -268,6 +269,13 @@ func genModule(pkgs []*packages.Package, m *Module, byName map[string]*Module, o
 		rr.Funcs = append(rr.Funcs, fi)
 		if rep.Trusted {
 			rr.Trusted = append(rr.Trusted, m.Name+": "+rep.Func+" (contract assumed, not verified)")
+		}
+		if fs := e.Specs[target.PkgPath].Funcs[key]; fs != nil && !strings.Contains(key, ".") && key != "" && key[0] >= 'A' && key[0] <= 'Z' {
+			for _, c := range fs.Clauses {
+				if c.Kind == "requires" {
+					rr.Inputs = append(rr.Inputs, "input assumption of "+m.Name+": "+rep.Func+": "+c.Text)
+				}
+			}
 		}
 		mk(rep)
 	}
